@@ -12,9 +12,10 @@ LEVEL_TEXT = ("Hashes.tla transcribes the PUBLISHED definitions (lookup2.c mix/h
               "one-at-a-time test values, checks the reference-level laws (byte-wise = little-endian word-wise lookup2, hash2 = hash up to "
               "the length term, mix reversible, FNV shift-add = multiply) on every case, and emits (function, key, seed, expected) "
               "vectors for ALL key lengths 0..40 over structured and seeded pseudo-random contents and 5-7 seeds. Every vector is "
-              "evaluated on the ASan build of the current tree at all 8 alignments, key ending at / starting behind a redzone (23 calls "
-              "per vector). Values recorded from the library on keys of up to several thousand bytes are validated by TLC "
-              "(HashesTrace.tla).")
+              "evaluated on the ASan build of the current tree at all 8 alignments, key ending at / starting behind a redzone, after an "
+              "adversarial prelude (same address other content, errno, run-time debug level) and, for the empty key, as (NULL, 0) "
+              "(39-41 calls per vector). Values recorded from the library on long keys - a size sweep n-1..n+12 around every "
+              "threshold n in 64..12288 for every function - are validated by TLC (HashesTrace.tla).")
 LEVEL_NOTE = ("Equality with the definitions is established on the vectors, not for all keys. lookup2 has no published test vector that "
               "could be used as an anchor: its transcription is cross-checked structurally (three variants agree, mix has the published "
               "inverse) while FNV and one-at-a-time are anchored on published values. Trusted: TLC, the limb arithmetic (anchored against "
@@ -24,7 +25,13 @@ DESIGN_REF = "DESIGN.md section 6 C18"
 
 OPS = ["jenkins", "jenkinsLE", "jenkins32", "rotating", "one_at_a_time", "fnv"]
 ACTIONS = ["OpJenkins", "OpJenkinsLE", "OpJenkins32", "OpRotating", "OpRotatingPublished", "OpOneAtATime", "OpFnv"]
-CALLS_PER_VECTOR = 23          # placements evaluated by harness/hash_replay.c for one vector (it asserts the same number)
+CALLS_PER_VECTOR = 39          # library calls made by harness/hash_replay.c for one vector (it asserts the same number) ...
+CALLS_EXTRA_EMPTY = 2          # ... plus the (NULL, 0, seed) placement of the empty key at run-time debug level 0 and 5
+SWEEP_N = [64, 128, 256, 512, 1024, 2048, 4096, 6144, 8192, 12288]      # size thresholds swept in direction (B)
+
+
+def ncalls(vectors):
+    return sum(CALLS_PER_VECTOR + (CALLS_EXTRA_EMPTY if nunits(e) == 0 else 0) for e in vectors)
 
 
 def harness(ctx):
@@ -133,7 +140,7 @@ def replay_vectors(ctx, exe, vecs):
     nontriv = sum(1 for e in uniq if nunits(e) > 0)
     ctx.add("evaluations", nt)
     ctx.add("distinct_nontrivial", nontriv)
-    ctx.add("impl_calls", nt * CALLS_PER_VECTOR)
+    ctx.add("impl_calls", ncalls(uniq))
     ctx.cov["vectors"] = {"distinct": len(uniq), "failed_steps": len(fails),
                           "per_function": {op: sum(1 for e in uniq if e["op"] == op) for op in OPS},
                           "key_lengths": "%d..%d bytes" % (min(nunits(e) for e in uniq if e["op"] != "jenkins32"),
@@ -145,7 +152,7 @@ def replay_vectors(ctx, exe, vecs):
         if ex:
             e = ex[len(ex) // 2]
             ctx.sample({"function": op, "key": tok(e["args"]["key"]), "seed": hexv(e["args"]["seed"]), "expected_by_TLC": hexv(e["ret"]),
-                        "impl": "equal at 8 alignments x placements (23 calls)"})
+                        "impl": "equal at 8 alignments x placements (%d calls)" % CALLS_PER_VECTOR})
     return uniq
 
 
@@ -170,6 +177,20 @@ def long_keys(ctx):
                 kb = [rnd.randrange(256) for _ in range(n)]
             seed = rnd.choice([[0, 0], [0, 1], [65535, 65535], [rnd.randrange(65536), rnd.randrange(65536)]])
             cases.append({"op": op, "args": {"key": kb, "seed": seed}})
+    # size-sweep family: every function at n-1 .. n+12 bytes around every threshold n (the harness evaluates each at all 8
+    # alignments and placements); 12 consecutive lengths cover every tail of the 12-byte block and every word remainder
+    sweep = SWEEP_N if ctx.tier == "quick" else SWEEP_N + [16384, 3 * 6144, 24576]
+    nsweep = 0
+    for op in OPS:
+        for n0 in sweep:
+            lens = sorted({(n - n % 4) if op == "jenkins32" else n for n in range(n0 - 1, n0 + 13)} | ({n0 - 4} if op == "jenkins32" else set()))
+            for n in lens:
+                kb = [rnd.randrange(256) for _ in range(n)]
+                seed = [0, 0] if (n + len(op)) % 3 == 0 else [rnd.randrange(65536), rnd.randrange(65536)]
+                cases.append({"op": op, "args": {"key": kb, "seed": seed}})
+                nsweep += 1
+    ctx.cov["size_sweep"] = {"thresholds": sweep, "lengths_per_threshold": "n-1 .. n+12", "events": nsweep,
+                             "alignments_and_placements_per_event": CALLS_PER_VECTOR}
     return cases
 
 
@@ -211,33 +232,58 @@ def record_and_validate(ctx, exe, corrupt=None):
         raise Broken("no recorded events")
     if corrupt is not None:
         corrupt(events)
-    ok, pos, path = trace.validate(ctx, "HashesTrace.tla", "HashesTrace.cfg", events, tag="c18", timeout=1500)
-    ctx.add("trace_events_validated", pos)
-    ctx.add("traces_validated_against_impl", 1)
-    if not ok:
-        e = events[pos] if pos < len(events) else None
-        sid = index[pos] if pos < len(index) else None
-        ctx.report("trace-rejected %s [%s]" % (e["op"] if e else "?", argclass(e["op"], len(to_harness(e)["args"]["key"]), e["args"]["seed"]) if e else "-"),
-                   "TLC rejects the value recorded from the library at event %d: %s(%d-byte key, seed %s) returned %s" % (
-                       pos, e["op"], len(e["args"]["key"]), hexv(e["args"]["seed"]), hexv(e["ret"])) if e else "TLC rejects the trace",
-                   {"harness_args": [], "script_text": texts[sid - 1] if sid else "", "event_index": pos,
-                    "event": {"op": e["op"], "seed": e["args"]["seed"], "ret": e["ret"], "key_len": len(e["args"]["key"])} if e else None})
-    else:
-        ctx.add("evaluations", len(events))
-        ctx.add("distinct_nontrivial", len({(e["op"], tok(e["args"]["key"]), tok(e["args"]["seed"])) for e in events}))
-        ctx.add("impl_calls", len(events) * CALLS_PER_VECTOR)
-        ctx.sample({"trace_events": len(events), "max_key_bytes": max(len(e["args"]["key"]) for e in events),
-                    "first": [{"op": e["op"], "key_len": len(e["args"]["key"]), "seed": hexv(e["args"]["seed"]), "recorded": hexv(e["ret"])}
-                              for e in events[:3]]})
+    # several TLC processes in parallel, events dealt out by size so that the chunks cost about the same; a rejected event
+    # is reported and the rest of its chunk is validated in a further run (events are independent of each other)
+    order = sorted(range(len(events)), key=lambda i: -len(events[i]["args"]["key"]))
+    nchunks = 4 if len(events) >= 40 else 1
+    chunks = [order[c::nchunks] for c in range(nchunks)]
+
+    def work(c):
+        idx, out, rounds = chunks[c], [], 0
+        while idx and rounds < 12:
+            rounds += 1
+            ok_, pos_, _ = trace.validate(ctx, "HashesTrace.tla", "HashesTrace.cfg", [events[i] for i in idx], tag="c18-%d-%d" % (c, rounds),
+                                          timeout=1500)
+            if ok_:
+                out.append((len(idx), None))
+                break
+            out.append((pos_, idx[pos_] if pos_ < len(idx) else None))
+            idx = idx[pos_ + 1:]
+        return out
+    from concurrent.futures import ThreadPoolExecutor
+    with ThreadPoolExecutor(nchunks) as ex:
+        results = list(ex.map(work, range(nchunks)))
+    ok = True
+    accepted = 0
+    for out in results:
+        for n_ok, bad_i in out:
+            accepted += n_ok
+            if bad_i is None:
+                continue
+            ok = False
+            e, sid = events[bad_i], index[bad_i]
+            ctx.report("trace-rejected %s [%s]" % (e["op"], argclass(e["op"], len(to_harness(e)["args"]["key"]), e["args"]["seed"])),
+                       "TLC rejects the value recorded from the library: %s(%d-byte key, seed %s) returned %s" % (
+                           e["op"], len(e["args"]["key"]), hexv(e["args"]["seed"]), hexv(e["ret"])),
+                       {"harness_args": [], "script_text": texts[sid - 1], "event_index": bad_i,
+                        "event": {"op": e["op"], "seed": e["args"]["seed"], "ret": e["ret"], "key_len": len(e["args"]["key"])}})
+    ctx.add("trace_events_validated", accepted)
+    ctx.add("traces_validated_against_impl", nchunks)
+    ctx.add("evaluations", accepted)
+    ctx.add("distinct_nontrivial", len({(e["op"], tok(e["args"]["key"]), tok(e["args"]["seed"])) for e in events}) if ok else 0)
+    ctx.add("impl_calls", ncalls([to_harness(e) for e in events]))
+    ctx.sample({"trace_events": len(events), "accepted_by_TLC": accepted, "max_key_bytes": max(len(e["args"]["key"]) for e in events),
+                "first": [{"op": e["op"], "key_len": len(e["args"]["key"]), "seed": hexv(e["args"]["seed"]), "recorded": hexv(e["ret"])}
+                          for e in events[:3]]})
     return ok
 
 
 def run(ctx):
     exe = harness(ctx)
     import subprocess
-    n = int(subprocess.run([exe, "--calls-per-vector"], capture_output=True, text=True, timeout=60).stdout.strip() or 0)
-    if n != CALLS_PER_VECTOR:
-        raise Broken("harness evaluates %d placements per vector, check expects %d" % (n, CALLS_PER_VECTOR))
+    n = subprocess.run([exe, "--calls-per-vector"], capture_output=True, text=True, timeout=60).stdout.split()
+    if n != [str(CALLS_PER_VECTOR), str(CALLS_EXTRA_EMPTY)]:
+        raise Broken("harness makes %s calls per vector, check expects %d (+%d)" % (n, CALLS_PER_VECTOR, CALLS_EXTRA_EMPTY))
     cfg = "Hashes_quick.cfg" if ctx.tier == "quick" else "Hashes_thorough.cfg"
     vecs = tlc_vectors(ctx, cfg)
     replay_vectors(ctx, exe, vecs)
@@ -245,10 +291,10 @@ def run(ctx):
     ctx.cov["exhaustive"] = False
     ctx.cov["rule"] = ("cases = TLC's states of MC_Hashes: every key length 0..40 x {all-zero, all-0xFF, counting up, counting down, "
                        "single-bit keys (first, last and every BitStep-th bit), NRand pseudo-random keys generated in TLA+ from the run "
-                       "seed} x seeds {0, 1, 0xFFFFFFFF, 0x80000000, pseudo-random}; one vector per (function, key, seed) with the "
+                       "seed} + every byte value 0..255 at the first/middle/12th/last position of keys of the lengths ByteLens, x seeds {0, 1, 0xFFFFFFFF, 0x80000000, pseudo-random}; one vector per (function, key, seed) with the "
                        "expected value computed by TLC from the published definition; each vector is executed on the library at 8 "
-                       "alignments x 2-3 redzone placements (impl_calls) and must return the expected value everywhere. evaluations = "
-                       "vectors executed + recorded long-key values validated by TLC; a case is distinct by (function, key bytes, "
+                       "alignments x placements E/E2/M/P (+ NULL for the empty key) (impl_calls) and must return the expected value everywhere. "
+                       "evaluations = vectors executed + recorded long-key values (random lengths + the size sweep) accepted by TLC; a case is distinct by (function, key bytes, "
                        "seed) and non-trivial when the key is non-empty (counted from the set).")
     ctx.assumptions += ["little-endian host (the harness refuses to run otherwise)",
                         "the reference is the published definition with the library's documented parameter choices: lookup2's arbitrary "
